@@ -35,8 +35,66 @@ def extract(ctx):
                          "definite bad shapes, the correspondence decides")
 
 
+def race_run(ctx):
+    """cascades on several workers with a harness built with -race: a DATA RACE report with frames in the
+    tree under test, or a crash, is a violation (clause c with several workers rests on the lock section)"""
+    cov = ctx.coverage
+    cov["race_cases"] = 0
+    try:
+        binp = checklib.go_build(ctx, out="harness-race", race=True)
+    except checklib.CheckError as e:
+        ctx.notes.append("the -race build of the harness failed; no race run in this check: " + str(e)[-200:])
+        return
+    nsh = 6
+    procs = []
+    for i in range(nsh):
+        env = dict(checklib.GOENV, CGO_ENABLED="1", GORACE=f"log_path={ctx.work}/race-log halt_on_error=0", VERIF_REPO=checklib.REPO)
+        procs.append(subprocess.Popen([binp, "C10", "-tier", "race", "-seed", str(ctx.seed), "-shard", f"{i}/{nsh}",
+                                       "-cases", os.path.join(ctx.work, f"race-cases.{i}"), "-out", os.path.join(ctx.work, f"race-out.{i}")],
+                                      cwd=ctx.work, env=env, stdout=subprocess.PIPE, stderr=subprocess.STDOUT, text=True))
+    crashed = []
+    for i, p in enumerate(procs):
+        try:
+            out, _ = p.communicate(timeout=600)
+        except subprocess.TimeoutExpired:
+            p.kill()
+            out = "timeout"
+        if p.returncode != 0:
+            crashed.append((i, p.returncode, out[-1500:]))
+    ncases = 0
+    for i in range(nsh):
+        f = os.path.join(ctx.work, f"race-out.{i}")
+        if os.path.exists(f):
+            ncases += sum(1 for l in open(f, errors="replace") if l and not l.startswith("#"))
+    cov["race_cases"] = ncases
+    reports = []
+    for fn in sorted(glob.glob(os.path.join(ctx.work, "race-log*"))):
+        txt = open(fn, errors="replace").read()
+        for blk in txt.split("=================="):
+            if "DATA RACE" in blk and ("/engine/" in blk or "krotik/ecal/engine" in blk):
+                reports.append(blk.strip())
+    cov["race_reports_in_engine"] = len(reports)
+    for i, rc, out in crashed[:1]:
+        last = ""
+        cf = os.path.join(ctx.work, f"race-cases.{i}")
+        if os.path.exists(cf):
+            ls = [l for l in open(cf, errors="replace") if l.strip()]
+            last = ls[-1].split("\t", 1)[-1].strip() if ls else ""
+        rp = checklib.write_replay(ctx, "race-crash", {"payload": last, "output": out[-1200:]},
+                                   "cascades on several workers run without a fatal error", f"harness exited with status {rc}",
+                                   "build the harness with -race and run the payload with -one", tag="racecrash")
+        checklib.violation(ctx, rp, "the real code crashed in the race run: " + " ".join(out.split())[-160:])
+    if reports:
+        rp = checklib.write_replay(ctx, "race", {"reports": len(reports), "first": reports[0][:3000]},
+                                   "no data race in engine/ while cascades run on several workers",
+                                   f"{len(reports)} DATA RACE report(s) with frames in engine/",
+                                   "build the harness with -race (GORACE=log_path=…) and run `harness C10 -tier race`", tag="race")
+        checklib.violation(ctx, rp, f"{len(reports)} DATA RACE report(s) in engine/ ({ncases} cascades on 2..8 workers)")
+
+
 def post(ctx, cases, gores, model):
     """dequeue traces recorded at queue.push / queue.pop in the multi-worker runs → model"""
+    race_run(ctx)
     traces = {}
     for fn in sorted(glob.glob(os.path.join(ctx.work, "c10-traces-*.txt"))):
         for l in open(fn, errors="replace"):
@@ -45,17 +103,6 @@ def post(ctx, cases, gores, model):
                 payload, tr = l.split("\t", 1)
                 traces[len(traces)] = (payload, tr)
     cov = ctx.coverage
-    # declared deviation: negative monitor priorities are clamped by the queue
-    neg = [i for i in sorted(cases) if model.get(i, ("", {}))[1].get("dev") == "neg"]
-    cov["negative_priority_clamp_changes_order"] = len(neg)
-    if neg:
-        known, _ = checklib.load_known()
-        text = (f"{len(neg)} one-worker cascade cases where clamping a negative monitor priority to 0 in PriorityQueue.Push changes the order "
-                f"in which events are taken (Go = model; the property's 'lowest priority number' would order them differently), e.g. {cases[neg[0]]}")
-        if (ctx.prop, "negative-priority-clamped") in known:
-            checklib.known_finding(ctx, "id=negative-priority-clamped " + text)
-        else:
-            ctx.notes.append("declared deviation (not in known_findings.txt): " + text)
     # runs with free tie order: the observed run is validated by the model
     obs = {}
     for fn in sorted(glob.glob(os.path.join(ctx.work, "c10-validate-*.txt"))):
@@ -66,7 +113,17 @@ def post(ctx, cases, gores, model):
     cov["validated_runs"] = 0
     if obs:
         vres = checklib.run_driver(ctx, ctx.prop, obs, args=["validate"], shards=8)
-        vbad = [k for k in sorted(obs) if vres.get(k, ("MISSING", {}))[0] != "ok"]
+        vbad = [k for k in sorted(obs) if vres.get(k, ("MISSING", {}))[0] not in ("ok", "ok-floored-only")]
+        floored = [k for k in sorted(obs) if vres.get(k, ("", {}))[0] == "ok-floored-only"]
+        cov["sink_runs_admissible_only_for_floored_priorities"] = len(floored)
+        if floored:
+            known, _ = checklib.load_known()
+            text = (f"{len(floored)} sink runs that are trigger sequences for the floored priorities but not for the numbers as written, "
+                    f"e.g. {obs[floored[0]]}")
+            if (ctx.prop, "fractional-sink-priority-floored") in known:
+                checklib.known_finding(ctx, "id=fractional-sink-priority-floored " + text)
+            else:
+                ctx.notes.append("finding not yet in known_findings.txt (fractional-sink-priority-floored): " + text)
         cov["validated_runs"] = len(obs) - len(vbad)
         vbad.sort(key=lambda k: len(obs[k]))
         for k in vbad[:3]:
@@ -84,7 +141,8 @@ def post(ctx, cases, gores, model):
                          "the dequeue order with several workers was not checked in this run")
         return
     res = checklib.run_driver(ctx, ctx.prop, {k: v[1] for k, v in traces.items()}, args=["trace"], shards=8)
-    bad = [k for k in sorted(traces) if res.get(k, ("MISSING", {}))[0] != "ok"]
+    bad = [k for k in sorted(traces) if res.get(k, ("MISSING", {}))[0] not in ("ok", "ok-unclamped")]
+    cov["traces_following_the_unclamped_queue"] = sum(1 for k in traces if res.get(k, ("", {}))[0] == "ok-unclamped")
     cov["traces_validated_against_impl"] = len(traces) - len(bad)
     cov["trace_events"] = sum(len(v[1].split(" ")) for v in traces.values())
     bad.sort(key=lambda k: len(traces[k][1]))
